@@ -16,3 +16,12 @@ package gohbase
 //@   ensures[C17] r1 == nil && backoff > 0 ==> ghost("slept") == old(ghost("slept")) + backoff
 //@   ensures[C17] r1 != nil ==> r0 == 0 && ghostat("ctxdone", ctx) == 1
 //@   panics never[C17]
+
+// ---- results read from the wire (C11) ----
+
+//@ func gohbase.(*client).mutate
+//@   trusted "result cells come from proto.Unmarshal (repeated message fields have no nil elements)"
+//@   ensures r1 == nil ==> r0 != nil && forall(k, 0 <= k && k < len(r0.Cells), r0.Cells[k] != nil)
+
+//@ func gohbase.(*client).Increment
+//@   panics never[C11]
